@@ -369,8 +369,8 @@ def manifest():
             na.append(dict(property_id=pid, reason="not claimed yet: the check for this property is still under construction (the technique applies; see DESIGN.md §6)"))
     na.sort(key=lambda e: e["property_id"])
     m = dict(version=1, setup_cmd="python3 check.py --setup",
-             hooks=dict(guard="monero_rs_verif", enable="none needed: every anchored function is reachable through the public API; the harness path-depends on /repo (features=[\"serde\"]) and rebuilds it from the working tree",
-                        baseline_off_cmd="cd /repo && cargo test --workspace --no-fail-fast --offline", source_commits=[], add_only=True),
+             hooks=dict(guard="monero_rs_verif", enable="harness/.cargo/config.toml sets rustflags = [\"--cfg\", \"monero_rs_verif\"]; the harness path-depends on /repo (features=[\"serde\"]) and rebuilds it from the working tree. One hook: cryptonote::hash::verif_tree_hash_cnt exposes the private tree_hash_cnt (C06). Everything else is reached through the public API.",
+                        baseline_off_cmd="cd /repo && cargo test --workspace --no-fail-fast --offline", source_commits=["4308eff"], add_only=True),
              engines=[dict(name="lean4-proof+correspondence", path="/verif/check.py", serves_properties=sorted(REG.PROPS),
                            kind_free_text="Lean 4 theorems about an executable model (lake build + #print axioms audit), model tied to /repo by a syn-based translator for tables/constants and by a differential correspondence check (Rust harness vs compiled Lean driver); Lean spec/reference as independent oracle")],
              checks=checks, not_applicable=na, notes=REG.NOTES)
